@@ -52,7 +52,7 @@ func runC07Detection(c *Ctx) {
 	var againRet, failedRet *ssa.Return
 	for _, in := range instrsWhere(fn, isReturn) {
 		ret := in.(*ssa.Return)
-		if isNilConst(ret.Results[1]) {
+		if isNilConst(unspill(ret, 1)) {
 			nret++
 			good := false
 			for _, g := range guardsAt(ret.Block()) {
@@ -69,10 +69,10 @@ func runC07Detection(c *Ctx) {
 			}
 			continue
 		}
-		if isGlobalLoad(ret.Results[1], "EAGAIN") {
+		if isGlobalLoad(unspill(ret, 1), "EAGAIN") {
 			againRet = ret
 		}
-		if isGlobalLoad(ret.Results[1], "FAILED") {
+		if isGlobalLoad(unspill(ret, 1), "FAILED") {
 			failedRet = ret
 		}
 	}
@@ -339,7 +339,7 @@ func runC07Tars(c *Ctx, rule string) {
 		if len(ret.Results) < 2 {
 			continue
 		}
-		v := ret.Results[1]
+		v := unspill(ret, 1)
 		if u, ok := v.(*ssa.UnOp); ok {
 			if al, ok := u.X.(*ssa.Alloc); ok {
 				var last ssa.Value
